@@ -194,7 +194,38 @@ SHMEM = [
 ]
 PROPS["C19"] = GUARD_EPERM + [RESTRICT_GUARD] + SHMEM
 PROPS["C08"] = [RESTRICT_GUARD]
-PROPS["C13"] = [j for j in GUARD_EPERM if j.name == "hwloc_distances_add_create"]
+# ------------------------------------------------------------------ C13 distances.c (plain harnesses on explicit small states)
+def _ds(name, nb, unwind, nd=3, cost=30, defs=None, tdefs=None, **kw):
+    d = {"NB": nb, "ND": nd}; d.update(defs or {})
+    return Job(name="%s.n%d" % (name, nb), driver="distances.drv.c", entry="hp_" + name, mode="plain", unwind=unwind, min_post=0, cost=cost,
+               family="distances", label="bounded", defines=d, tdefs=tdefs, **kw)
+
+_T = "hwloc_distances_transform_"
+C13X = []
+for _n in (2, 3, 4):
+    _u = _n * _n + 1 if _n * _n + 1 > 11 else 11     # strcmp on subtypes of <= 9 characters: 10 iterations
+    C13X += [
+        _ds(_T + "dispatch", _n, _u, cost=50, note="non-zero flags, non-NULL attribute, unknown transformation => -1/EINVAL and the structure (objects, values, kind, nbobjs) is untouched; matrices of exactly %d objects (NULL entries allowed), any subtype strings <= 9 chars, any values" % _n),
+        _ds(_T + "remove_null", _n, _u, cost=10, note="REMOVE_NULL keeps exactly the non-NULL objects in order with the exact sub-matrix, < 2 left => EINVAL and nothing changes, HETEROGENEOUS_TYPES recomputed; matrices of exactly %d objects" % _n),
+        _ds(_T + "merge_switch_ports", _n, _u, cost=90, note="MERGE_SWITCH_PORTS keeps every non-switch object and the values between them, the first port gets the links of all ports, other ports removed, no port => ENOENT and nothing changes; matrices of exactly %d objects, any NULL / \"NVSwitch\" / other-subtype pattern, any values" % _n),
+        _ds(_T + "transitive_closure", _n, _u, cost=90, note="TRANSITIVE_CLOSURE keeps all objects, adds min(bandwidth to the switch, bandwidth from the switch) to every pair of distinct non-switch objects and nothing else; matrices of exactly %d objects" % _n),
+    ]
+C13X += [
+    _ds(_T + "links", 2, 11, cost=60, defs={"VMAX": 255}, tdefs={"VMAX": 4095}, ttimeout=3600, note="LINKS: non-bandwidth => EINVAL untouched; diagonal 0; all values divided by the smallest positive one or ENOENT; 2 objects, values <= 255 (64-bit division is the SAT bottleneck)"),
+    _ds(_T + "links", 3, 11, cost=250, defs={"VMAX": 15}, tdefs={"VMAX": 255}, timeout=1500, ttimeout=3600, note="LINKS on 3 objects, values <= 15"),
+]
+for _n in (2, 3, 4):
+    C13X.append(_ds("hwloc_internal_distances_refresh_one", _n, _n * _n + 1, cost=10,
+        note="refresh after the topology changed: valid cache => untouched without look-ups; else every entry re-resolved through the look-up (table stub), survivors compacted in order with their indexes, per-object types and the exact sub-matrix, < 2 survivors => -1 (dropped by the caller); exactly %d objects, any survivor pattern, os_index and gp_index matrices" % _n))
+C13X += [
+    _ds("hwloc_distances_get", 2, 6, nd=3, cost=30, note="get / get_by_type / get_by_name / get_by_depth on a list of 0..3 structures (2 objects each, names NULL or <= 2 chars, any kind words and types): *nr = number of structures matching the documented filter even when the array is smaller, slots filled in list order with private copies (same nbobjs, kind, objects, values, id), remaining slots NULL, slots beyond *nr untouched; flags / unloaded / invalid depth => EINVAL untouched; the list itself is unchanged"),
+    _ds("hwloc_distances_remove_by_depth", 2, 6, nd=3, cost=5, note="removes exactly the structures whose type is the type of the depth; list links stay consistent; 0..3 structures"),
+    _ds("hwloc_distances_release_remove", 2, 6, nd=3, cost=5, note="removes exactly the structure with the id of the user's copy, EINVAL and nothing removed when there is none; 0..3 structures with pairwise distinct ids"),
+    _ds("hwloc_distances_remove", 2, 6, nd=3, cost=5, note="removes every structure (EINVAL on an unloaded topology); 0..3 structures"),
+    _ds("hwloc_distances_add", 2, 6, nd=2, cost=20, note="add_create + add_values + add_commit on a list of 0..2 structures: invalid kind word / flags / NULL object / unknown commit flags => refused, list unchanged; success => appended at the tail with a fresh id, the caller's kind (+HETEROGENEOUS_TYPES iff types differ), private copies of name, objects and values, os_index or gp_index identities; 2 objects; grouping off"),
+    _ds("hwloc_distances_add", 3, 10, nd=2, cost=40, note="same with 3 objects"),
+]
+PROPS["C13"] = [j for j in GUARD_EPERM if j.name == "hwloc_distances_add_create"] + C13X
 DIFF_ROLLBACK = Job(name="hwloc_topology_diff_apply__rollback", driver="guard.diff.drv.c", entry="h_hwloc_topology_diff_apply__rollback",
     enforce="hwloc_topology_diff_apply/hwloc_topology_diff_apply__rollback", replace=["hwloc_apply_diff_one/verif_apply_one"], unwind=5, unwindset="__CPROVER_contracts_write_set_check_assigns_clause_inclusion.0:16", objbits=10, cost=20,
     family="guard", fallback=False, label="bounded", min_post=5, loop_contracts=False,
